@@ -235,6 +235,13 @@ def runH : Handler := fun req => do
 /-! ### untagged unions: `codec.union` (tie E) and `codec.urun` (tie A) -/
 
 def altOf (j : Json) : Except String Alt := do
+  match j.getObjVal? "free" with
+  | .ok (.str "obj") => pure (.free .obj)
+  | .ok (.str "objNull") => pure (.free .objNull)
+  | .ok (.str "objClosed") => pure (.free .objClosed)
+  | .ok (.str "any") => pure (.free .any)
+  | .ok x => throw s!"free kind {x.compress}"
+  | .error _ =>
   match j.getObjVal? "const" with
   | .ok c => pure (.const (← chars c))
   | .error _ =>
@@ -245,11 +252,14 @@ def altOf (j : Json) : Except String Alt := do
 def uvarJson : UVar → Json
   | .unit w => Json.mkObj [("unit", str w)]
   | .newtype t => Json.mkObj [("newtype", tyJson t)]
+  | .value => Json.mkObj [("newtype", Json.mkObj [("k", "value")])]
 
 def uvarOf (j : Json) : Except String UVar := do
   match j.getObjVal? "unit" with
   | .ok w => pure (.unit (← chars w))
-  | .error _ => do pure (.newtype (← tyOf (← field j "newtype")))
+  | .error _ => do
+    let t ← field j "newtype"
+    if fieldD t "k" Json.null == Json.str "value" then pure .value else pure (.newtype (← tyOf t))
 
 def classNamesU (oneOf : Bool) (alts : List Alt) (d : J) : List String :=
   (classesU fnameReal vnameReal oneOf alts d).map KnownU.name ++
@@ -283,6 +293,31 @@ def unionInputs (req : Json) : Except String (Bool × List Alt × List DocCase) 
   let alts ← (← arr (← field inp "alts")).mapM altOf
   pure (← boolOf (← field inp "oneOf"), alts, ← docsOf inp)
 
+/-- the Known enum of a Known/Other pair may be an enum the document already has with the same value SET (type sharing, C13):
+its variants then come in that enum's order.  Without aliases the order of unit variants has no effect on the codec: both sides are
+compared with the variants of that enum sorted by wire name. -/
+def canonKnown (j : Json) : Json :=
+  match j.getObjVal? "ty" with
+  | .ok ty =>
+    match ty.getObjVal? "k", ty.getObjVal? "vs" with
+    | .ok (.str "untagged"), .ok (.arr vs) =>
+      match vs.toList with
+      | [a, b] =>
+        match a.getObjVal? "newtype" with
+        | .ok en =>
+          match en.getObjVal? "k", en.getObjVal? "vs" with
+          | .ok (.str "enum"), .ok (.arr evs) =>
+            let noAlias := evs.all fun v => match v.getObjVal? "aliases" with | .ok (.arr x) => x.isEmpty | _ => false
+            if !noAlias then j else
+            let sorted := evs.qsort (fun x y => (fieldD x "wire" Json.null).compress < (fieldD y "wire" Json.null).compress)
+            let en' := Json.mkObj [("k", "enum"), ("vs", Json.arr sorted)]
+            Json.mkObj [("ty", Json.mkObj [("k", "untagged"), ("vs", Json.arr #[Json.mkObj [("newtype", en')], b])])]
+          | _, _ => j
+        | .error _ => j
+      | _ => j
+    | _, _ => j
+  | .error _ => j
+
 def unionH : Handler := fun req => do
   let (oneOf, alts, docs) ← unionInputs req
   let impl ← field req "impl"
@@ -300,7 +335,9 @@ def unionH : Handler := fun req => do
         pure (judgeAllU oneOf alts docs (fun d => rt t d.doc) true)
       | _, _ => pure (verdict false [] s!"the root type is not an enum: {tj.compress}")
     | .error _ => pure (verdict false [] s!"no type emitted: {impl.compress}")
-  pure (answer model impl judge (branchOfU oneOf alts docs))
+  let relaxed := !oneOf && relaxedPattern alts
+  pure (if relaxed then answer (canonKnown model) (canonKnown impl) judge (branchOfU oneOf alts docs)
+        else answer model impl judge (branchOfU oneOf alts docs))
 
 def urunH : Handler := fun req => do
   let (oneOf, alts, docs) ← unionInputs req
